@@ -172,6 +172,12 @@ func TestVerif_C11_Runtime(t *testing.T) {
 			go func() { slowDone <- c11rtGet(addr, "/slow", 120*time.Second) }()
 			select {
 			case <-mapper.entered:
+			case g := <-slowDone:
+				// the request ended without ever entering its backend; it was sent after the
+				// previous generation had been seen serving, so this is not the update under
+				// test: recorded with its reason, the case is given up
+				r.Inconclusive(fmt.Sprintf("parked request ended before reaching its backend: err=%q status=%d backend=%q", kit.MsgClass(g.Err), g.Status, g.Backend))
+				abandoned = true
 			case <-time.After(30 * time.Second):
 				// the request may still arrive later and would then be taken for the parked
 				// request of a later generation: give the whole case up
